@@ -159,8 +159,54 @@ fn offer_serde<B: Backend>(rec: &mut Recorder, items: &[Item]) -> u64 {
     n
 }
 
+/// Payload encodings (header suffixes) are kinds too: a token sealed as one encoding is parsed and opened only as that encoding.
+fn offer_suffixes<B: Backend>(rec: &mut Recorder) -> u64 {
+    use crate::payload::{RawC, RawCb, RawM};
+    use paseto_core::tokens::UnsealedToken;
+    use paseto_core::validation::NoValidation;
+    let mut n = 0;
+    let lk = LocalKey::<B>::random().unwrap();
+    let Ok(sk) = SecretKey::<B>::random() else { return 0 };
+    let pk = sk.public_key();
+    macro_rules! sealed {
+        ($M:ident, $sfx:literal) => {
+            vec![($sfx, "local", UnsealedToken::<B::V, Local, $M>::new($M(b"m".to_vec())).seal(&lk, &[]).unwrap().to_string()),
+                 ($sfx, "public", UnsealedToken::<B::V, Public, $M>::new($M(b"m".to_vec())).seal(&sk, &[]).unwrap().to_string())]
+        };
+    }
+    let mut texts = sealed!(Raw, "");
+    texts.extend(sealed!(RawC, "c"));
+    texts.extend(sealed!(RawM, "m"));
+    texts.extend(sealed!(RawCb, "cb"));
+    for (src, purpose, text) in &texts {
+        macro_rules! offer {
+            ($M:ident, $dst:literal) => {{
+                let r = catch_unwind(AssertUnwindSafe(|| {
+                    if *purpose == "local" {
+                        SealedToken::<B::V, Local, $M>::from_str(text).map(|t| t.unseal(&lk, &[], &NoValidation::dangerous_no_validation()).is_ok())
+                    } else {
+                        SealedToken::<B::V, Public, $M>::from_str(text).map(|t| t.unseal(&pk, &[], &NoValidation::dangerous_no_validation()).is_ok())
+                    }
+                }));
+                let (parsed, opened, panic) = match r {
+                    Ok(Ok(o)) => (true, o, false),
+                    Ok(Err(_)) => (false, false, false),
+                    Err(_) => (false, false, true),
+                };
+                rec.emit(json!({"fn":"xsuffix","be":B::NAME,"purpose":purpose,"src_suffix":src,"dst_suffix":$dst,"parsed":parsed,"opened":opened,"panic":panic}));
+                n += 1;
+            }};
+        }
+        offer!(Raw, "");
+        offer!(RawC, "c");
+        offer!(RawM, "m");
+        offer!(RawCb, "cb");
+    }
+    n
+}
+
 fn offer_all<B: Backend>(rec: &mut Recorder, items: &[Item]) -> u64 {
-    let mut n = offer_serde::<B>(rec, items);
+    let mut n = offer_serde::<B>(rec, items) + offer_suffixes::<B>(rec);
     for it in items {
         let s = it.text.as_str();
         let mut emit = |dst_kind: &str, r: &str| {
